@@ -128,6 +128,49 @@ pub fn eq_exhaustive(ctx: &Ctx) -> Frag {
                     y[p] ^= 0x04;
                     y[q] ^= 0x40;
                 }
+                // two differences with the SAME delta at word-like distances (folds that cancel)
+                for d in [1usize, 2, 3, 4, 8, 16, 32] {
+                    if p + d < len {
+                        for bit in [0x01u8, 0x80] {
+                            y[p] ^= bit;
+                            y[p + d] ^= bit;
+                            evals += 1;
+                            nontrivial += 1;
+                            if let Some(v) = eq_ops(ctx, x, y, px, py, judge) {
+                                frag.violation(v);
+                                break 'outer;
+                            }
+                            y[p] ^= bit;
+                            y[p + d] ^= bit;
+                        }
+                    }
+                }
+            }
+        }
+        // the needle ALIASES the haystack: every sub-slice of it
+        if matches!(py, Place::Mid(0) | Place::End | Place::Start) {
+            for hl in 0..=max_pair {
+                let x = ax.window(hl, px);
+                for i in 0..hl {
+                    x[i] = content(i % 5, hl); // repetitive, so that sub-slices recur
+                }
+                let xs: &[u8] = &*x;
+                for a in 0..=hl {
+                    for l in 0..=(hl - a) {
+                        evals += 1;
+                        nontrivial += 1;
+                        if let Some(mut v) = eq_ops(ctx, xs, &xs[a..a + l], px, px, judge) {
+                            v["alias"] = json!([a, l]);
+                            frag.violation(v);
+                            break 'outer;
+                        }
+                        if let Some(mut v) = eq_ops(ctx, &xs[a..a + l], xs, px, px, judge) {
+                            v["alias_swapped"] = json!([a, l]);
+                            frag.violation(v);
+                            break 'outer;
+                        }
+                    }
+                }
             }
         }
         // all length pairs: prefix / suffix / unequal lengths
@@ -185,7 +228,7 @@ pub fn eq_pbt(ctx: &Ctx) -> Frag {
         prop::collection::vec(any::<u8>(), 0..=600),
         0u32..65536,
         0u32..65536,
-        0u8..6,
+        0u8..8,
         (0usize..16, 0usize..16),
         0u8..4,
     );
@@ -220,7 +263,22 @@ pub fn eq_pbt(ctx: &Ctx) -> Frag {
                 }
                 (base.clone(), y)
             }
-            _ => (base.clone(), base.iter().rev().copied().collect()),
+            5 => (base.clone(), base.iter().rev().copied().collect()),
+            _ if len > 0 => {
+                // 2-4 differences with the same delta at a fixed stride (1, 2, 4, 8, 16, 32, 64)
+                let mut y = base.clone();
+                let stride = 1usize << (f2 % 7);
+                let delta = 1u8 << ((f2 >> 3) % 8);
+                let k = 2 + (f2 >> 6) as usize % 3;
+                let p0 = at(f1, len);
+                for j in 0..k {
+                    if p0 + j * stride < len {
+                        y[p0 + j * stride] ^= delta;
+                    }
+                }
+                (base.clone(), y)
+            }
+            _ => (base.clone(), base.clone()),
         };
         let (px, py) = match pl {
             0 => (Place::Mid(a), Place::Mid(b)),
@@ -272,6 +330,18 @@ pub fn eq_replay(ctx: &Ctx, v: &Value) -> Option<Value> {
     let mut ax = Arena::new(4 + x.len() / 4096 + 2);
     let mut ay = Arena::new(4 + y.len() / 4096 + 2);
     let xp = ax.put(&x, px);
+    if let Some(al) = v.get("alias").and_then(|a| a.as_array()) {
+        let (a, l) = (al[0].as_u64().unwrap_or(0) as usize, al[1].as_u64().unwrap_or(0) as usize);
+        let xs: &[u8] = &*xp;
+        return eq_ops(ctx, xs, &xs[a..a + l], px, px, true);
+    }
+    if let Some(al) = v.get("alias_swapped").and_then(|a| a.as_array()) {
+        // here "y" of the report is the whole buffer and "x" its sub-slice
+        let (a, l) = (al[0].as_u64().unwrap_or(0) as usize, al[1].as_u64().unwrap_or(0) as usize);
+        let yp = ay.put(&y, py);
+        let ys: &[u8] = &*yp;
+        return eq_ops(ctx, &ys[a..a + l], ys, py, py, true);
+    }
     let yp = ay.put(&y, py);
     eq_ops(ctx, xp, yp, px, py, true)
 }
